@@ -22,6 +22,22 @@ whose shared subexpression FAILS and sits in evaluated / unevaluated places (unt
 guards on loop variables).
 The model is the renderer as repaired by fixes/C35.diff (see findings/C35.json): on the unrepaired code the correspondence
 breaks and the oracle replays the failing programs.
+
+Aggregation / scan binding contexts (NOT in the Coq model; checked by the run only, oracle `_judge_agg`): programs with
+TableAggregate / TableMapRows roots over ApplyAggOp / ApplyScanOp, AggFilter, AggExplode, AggGroupBy, AggArrayPerElement,
+AggLet (nested; python-level sharing of context arguments, eval values and whole aggregations; targeted programs with one
+shared expression AT the context argument and one level below it) and StreamAgg / StreamAggScan inside plain value IR are
+built directly as hail.ir nodes (mode 'agg' of c35_cse.py, no backend), rendered by the REAL CSERenderer, read back
+(c35_lang.parse_ir(agg=True)) and
+  (1) scope-checked against the three environments (eval / agg / scan) that the node structure defines (c35_lang.scope_check,
+      a hand-written table of the engine's binding structure that does not consult the python binding metadata): every Ref is
+      bound in the environment in which it is evaluated — a `__cse_N` reference by a `Let eval` in the eval environment or by an
+      `AggLet` with the matching is_scan flag in the agg resp. scan environment —, an AggLet / context argument never selects a
+      context that does not exist at its place, and the variables of every lifted expression refer to the same binders at each
+      use as at the binding;
+  (2) compared, with all CSE bindings inlined, with the plain rendering of the same object graph (structural equality).
+Open finding from this family: StreamAgg / StreamAggScan.free_vars drop the eval-context free variables of the body, so a
+shared StreamAgg is lifted above the binder of a variable it uses (keys agg-scope:..:eval-variable-of-StreamAgg(Scan)-body).
 """
 import glob
 import json
@@ -57,8 +73,22 @@ META = dict(
                'C35_error_semantics_refuted — without that side condition the statement is false for the renderer as it is (a let lifted '
                'out of a loop that runs zero times), replayed on the real renderer as open finding '
                'error-introduced:let-hoisted-out-of-loop-body. The model is the renderer as repaired by fixes/C35.diff; it agrees node '
-               'for node with the real renderer output on every generated program, and the real output is evaluated under both semantics.',
-    level_note='Partial: aggregation/scan contexts (AggLet, the agg/scan halves of the binding context), effectful nodes (Die), the unused '
+               'for node with the real renderer output on every generated program, and the real output is evaluated under both semantics. '
+               'RUN-CHECKED ONLY (no theorem): aggregation / scan binding contexts — on generated programs with TableAggregate / '
+               'TableMapRows roots over ApplyAggOp / ApplyScanOp, AggFilter, AggExplode, AggGroupBy, AggArrayPerElement, AggLet and with '
+               'StreamAgg / StreamAggScan inside value IR (shared expressions at the context argument itself, one level below it, in '
+               'eval and in agg / scan positions, nested), the REAL rendering is read back and scope-checked against the eval / agg / '
+               'scan environments the node structure defines (every `__cse_N` reference bound by a `Let eval` in the eval environment or '
+               'by an `AggLet` with the matching is_scan flag in the agg resp. scan environment; no AggLet or context argument selecting '
+               'a context that does not exist; lifted expressions see the same binders at their uses as at their binding) and, with all '
+               'CSE bindings inlined, compared structurally with the plain rendering. This found the open finding '
+               'agg-scope:..:eval-variable-of-StreamAgg-body (StreamAgg / StreamAggScan.free_vars ignore the eval-context variables of '
+               'the body: a shared StreamAgg is lifted above the binder of a variable it uses).',
+    level_note='Partial: aggregation/scan contexts (AggLet, the agg/scan halves of the binding context, StreamAgg / StreamAggScan) are '
+               'outside the Coq model — for them nothing is proved, the statement is only checked on the generated programs of each run, '
+               'against a hand-written table of the binding structure of those node classes (trusted; AggExplode binds its element only in '
+               'the context its is_scan flag selects, MatrixIR roots with both an agg and a scan context are not generated); effectful nodes '
+               '(Die), the unused '
                'memo table and the remaining IR node classes are outside the model; values are int32 with wrap-around, booleans, arrays and '
                'structs, no missing values; one kind of error (which operation failed first is not distinguished). The error-semantics '
                'theorem carries the side conditions wf_arity (arities as the front end builds them) and loops_ok (see above); that a let '
@@ -71,6 +101,9 @@ META = dict(
 TRUSTED = ['hand model coq/theories/CSE/Model.v tied to renderer.py only by the correspondence run (X)',
            'harness/impl/c35_cse.py (builds programs through the hail API / hail.ir, exports the real object graph by object identity) and '
            'harness/impl/c35_lang.py (reader of the rendered IR text, generator, reference evaluator used by the oracle)',
+           'aggregation / scan family: c35_lang.scope_check (hand-written binding table of AggLet, AggFilter, AggGroupBy, AggExplode, '
+           'AggArrayPerElement, ApplyAggOp / ApplyScanOp, StreamAgg / StreamAggScan, TableAggregate, TableMapRows), c35_lang.inline_cse and the '
+           'plain Renderer (`str(ir)`), whose output is taken as the inlined IR',
            'loader: numpy from /verif/.deps, functional shims decorator/parsimonious; no JVM/backend is started',
            'names: `__cse_N` in the IR text is read as the model\'s C N, every other name as a program variable']
 ASSUMPTIONS = ['error semantics: integer // and % by zero and ArrayRef / indexArray out of bounds are the failing operations of the modelled '
@@ -92,12 +125,29 @@ MAX_INLINE = 2500
 
 # ------------------------------------------------------------------------------------------------ cases
 
-def _corpus():
+def _corpus(agg=False):
+    """corpus cases of the modelled value subset (agg=False) or of the aggregation / scan family (mode 'agg', agg=True)"""
     out = []
     for p in sorted(glob.glob(os.path.join(os.path.dirname(os.path.dirname(os.path.dirname(os.path.abspath(__file__)))), 'corpus', ID, '*.json'))):
         doc = json.load(open(p))
-        out.append(doc['case'])
+        if (doc['case'].get('mode') == 'agg') == agg:
+            out.append(doc['case'])
     return out
+
+
+def _agg_cases(ctx, n_targeted, n_random, n_stream):
+    """Aggregation / scan programs (TableAggregate / TableMapRows roots; StreamAgg / StreamAggScan inside plain value IR), built as
+    hail.ir nodes: outside the Coq model."""
+    rng = ctx.rng
+    cases = _corpus(agg=True)
+    for _ in range(n_targeted):
+        cases.append({'mode': 'agg', 'prog': L.agg_targeted_program(rng)})
+    for _ in range(n_random):
+        g = L.AggGen(rng, rng.random() < 0.6, budget=rng.choice([4, 6, 8, 10, 12]))
+        cases.append({'mode': 'agg', 'prog': g.program()})
+    for _ in range(n_stream):
+        cases.append({'mode': 'agg', 'prog': L.streamagg_program(rng)})
+    return cases
 
 
 def _cases(ctx, n_random, n_targeted, n_failing):
@@ -345,11 +395,67 @@ def _judge(c, r):
     return None
 
 
+def _judge_agg(c, r, stats=None):
+    """Aggregation / scan programs: the REAL CSE rendering is read back and (1) scope-checked against the three environments
+    (eval / agg / scan) the node structure defines — every `__cse_N` reference bound by a `Let eval` in the eval environment or by
+    an `AggLet` with the matching is_scan flag in the agg resp. scan environment of the place where it is evaluated, the
+    variables of every lifted expression referring to the same binders at each use as at the binding —, (2) compared, after
+    inlining all CSE bindings, with the plain rendering of the same object graph (structural equality)."""
+    if 'build_exc' in r:
+        raise HarnessError(f'the front end rejected a generated aggregation program ({r["build_exc"]}): {json.dumps(c)[:300]}')
+    if 'cse_exc' in r:
+        e = r['cse_exc']
+        return Failure(f'renderer-raises:{e["type"]}:{e["where"].split(":")[0]}:agg',
+                       f'CSERenderer raises {e["type"]} ({e["where"]}) on an aggregation / scan IR', c, 'IR text', e)
+    try:
+        plain = L.parse_ir(r['plain'], agg=True)
+        L.scope_check(plain)
+    except (L.ReadError, L.ScopeError) as e:
+        raise HarnessError(f'generated aggregation program is not well-scoped / readable BEFORE CSE ({e}): {json.dumps(c)[:300]}')
+    try:
+        t = L.parse_ir(r['cse'], agg=True)
+    except L.ReadError as e:
+        return Failure('unreadable-output:agg', f'rendered IR cannot be read back: {e}', c, 'IR text in the subset', r['cse'][:800])
+    try:
+        st = L.scope_check(t)
+    except L.ScopeError as e:
+        key = 'agg-scope:' + e.key
+        if e.via and e.var in L.stream_agg_body_vars(plain):
+            # the variable is an eval-context free variable of a StreamAgg / StreamAggScan BODY in the original IR and is used, through
+            # that body, by a lifted expression that was put outside the variable's scope
+            key += f':eval-variable-of-{e.via}-body'
+        return Failure(key, 'the rendered IR binds or uses a lifted expression in the wrong binding context: ' + str(e),
+                       c, 'every Ref bound in the environment (eval / agg / scan) in which it is evaluated, lifted expressions seeing the '
+                          'same binders at their uses as at their binding', {'cse': r['cse'][:1200]})
+    if L.inline_cse(t) != plain:
+        return Failure('agg-inlined-differs', 'inlining the CSE bindings of the rendered IR does not give back the original IR',
+                       c, r['plain'][:1200], {'cse': r['cse'][:1200]})
+    if stats is not None:
+        for k, v in st.items():
+            stats['bindings'][k] = stats['bindings'].get(k, 0) + v
+        L.context_argument_stats(t, stats['context_arguments'])
+    return None
+
+
 def oracle(ctx, budget):
     sys.setrecursionlimit(100000)
+    agg_cases = _agg_cases(ctx, ctx.scale(300, 3000) * budget, ctx.scale(300, 3000) * budget, ctx.scale(200, 2000) * budget)
     cases = _cases(ctx, ctx.scale(400, 4000) * budget, ctx.scale(300, 3000) * budget, ctx.scale(400, 4000) * budget)
-    res = ctx.run_impl('c35_cse.py', {'cases': cases}, timeout=1500)['results']
+    res = ctx.run_impl('c35_cse.py', {'cases': cases + agg_cases}, timeout=1500)['results']
+    res, agg_res = res[:len(cases)], res[len(cases):]
     fails, n, nontrivial = [], 0, set()
+    agg_stats = {'bindings': {}, 'context_arguments': {}}
+    agg_samples, n_agg = [], 0
+    for c, r in zip(agg_cases, agg_res):
+        n_agg += 1
+        f = _judge_agg(c, r, agg_stats)
+        if f is not None:
+            fails.append(f)
+        elif '__cse_' in r['cse']:
+            nontrivial.add(r['cse'])
+            if len(agg_samples) < 2 and 'AggLet __cse_' in r['cse'] and len(r['cse']) < 500:
+                agg_samples.append({'mode': 'agg', 'plain': r['plain'], 'cse': r['cse']})
+    agg_stats['programs'] = n_agg
     for c, r in zip(cases, res):
         if 'dag' not in r:
             continue
@@ -363,17 +469,26 @@ def oracle(ctx, budget):
             nontrivial.add(r['cse'])
     # smallest witness per key first
     fails.sort(key=lambda f: len(json.dumps(f.case)))
-    return fails, {'evaluations': n, 'distinct_nontrivial': len(nontrivial),
+    return fails, {'evaluations': n + n_agg, 'distinct_nontrivial': len(nontrivial), 'samples': agg_samples,
+                   'histograms': {'agg_scan_family': agg_stats},
                    'rule': 'oracle: real CSERenderer output read back; no exception, free variables of the output within those of the '
                            'inlined IR, same value AND same failure behaviour (semantics with errors: strict Let, only the taken If '
                            'branch, loop bodies once per element, // and % by zero and out-of-bounds indexing fail) as the inlined IR under '
                            'two environments (reference evaluator in Python); programs include the family with FAILING shared '
-                           'subexpressions in evaluated / unevaluated places'}
+                           'subexpressions in evaluated / unevaluated places. Aggregation / scan family (TableAggregate / TableMapRows '
+                           'over ApplyAggOp / ApplyScanOp, AggFilter, AggExplode, AggGroupBy, AggArrayPerElement, AggLet, nested, with '
+                           'python-level sharing of context arguments, eval values and whole aggregations; targeted programs put one '
+                           'shared expression AT the context argument and one level below it): the real rendering is scope-checked '
+                           'against the eval / agg / scan environments (hand-written binding table of the engine semantics) and, '
+                           'with all CSE bindings inlined, compared structurally with the plain rendering of the same graph'}
 
 
 def replay(ctx, doc):
     case = doc['case']
     r = ctx.run_impl('c35_cse.py', {'cases': [case]})['results'][0]
-    f = _judge(case, r) if 'dag' in r else None
+    if case.get('mode') == 'agg':
+        f = _judge_agg(case, r)
+    else:
+        f = _judge(case, r) if 'dag' in r else None
     return {'case': case, 'plain': r.get('plain'), 'cse': r.get('cse'), 'exception': r.get('cse_exc'),
             'verdict': None if f is None else {'key': f.key, 'what': f.what, 'observed': f.observed}}
